@@ -778,10 +778,10 @@ impl<'p, W, R, T> CompilationScope<'p, W, R, T> {
                     }
                     None => return Err(CompilationError::ValueNotFound { name }),
                 };
+                self.require_forwards(forward_requirements)?;
                 let new_cell_idx = if height == self.height {
                     cell_idx
                 } else {
-                    self.require_forwards(forward_requirements)?;
                     let new_cell = Cell::Capture {
                         ancestor_depth: self.height - height,
                         cell_idx,
